@@ -527,3 +527,128 @@ func genHistory(t *rapid.T, spec *GenSpec) (*Program, int) {
 	}
 	return p, g.excluded
 }
+
+// ---------------------------------------------------------------
+// C09: iterator programs
+
+func neighbours(k []byte) [][]byte {
+	out := [][]byte{append(append([]byte{}, k...), 0)}
+	if len(k) > 0 {
+		out = append(out, append([]byte{}, k[:len(k)-1]...))
+		p := append([]byte{}, k...)
+		if p[len(p)-1] > 0 {
+			p[len(p)-1]--
+			out = append(out, append(p, 0xff))
+		}
+		q := append([]byte{}, k...)
+		if q[len(q)-1] < 0xff {
+			q[len(q)-1]++
+			out = append(out, q)
+		}
+	}
+	return out
+}
+
+func genProbeKey(t *rapid.T, keys [][]byte, label string) []byte {
+	if len(keys) == 0 {
+		return rapid.SliceOfN(rapid.Byte(), 0, 4).Draw(t, label)
+	}
+	k := keys[rapid.IntRange(0, len(keys)-1).Draw(t, label+"i")]
+	switch pick(t, label+"k", 50, 35, 15) {
+	case 0:
+		return k
+	case 1:
+		nb := neighbours(k)
+		return nb[rapid.IntRange(0, len(nb)-1).Draw(t, label+"n")]
+	default:
+		return rapid.SliceOfN(rapid.Byte(), 0, 6).Draw(t, label+"r")
+	}
+}
+
+func genIterProgram(t *rapid.T, spec *GenSpec) (*Program, int) {
+	p := &Program{Prop: spec.Prop}
+	p.Cfg = genConfig(t, spec)
+	if p.Cfg.Backing == "ll" && spec.Children {
+		sp := *spec
+		sp.NoRecreate = true
+		spec = &sp
+	}
+	g := &genState{spec: spec, model: NewNode(), deadKids: map[string]bool{}}
+	g.keys = genKeyPool(t, spec.Hostile, 8)
+	lower := p.Cfg.Backing != "mem"
+	nextID := 1
+	rounds := rapid.IntRange(1, 3).Draw(t, "rounds")
+	for r := 0; r < rounds; r++ {
+		npre := rapid.IntRange(0, 8).Draw(t, "npre")
+		for i := 0; i < npre; i++ {
+			wHold := 0
+			if lower {
+				wHold = 6
+			}
+			switch pick(t, "pre", 55, 30, wHold, wHold) {
+			case 0:
+				p.Ops = append(p.Ops, Op{Kind: "batch", B: g.nextBatch(t)})
+			case 1:
+				p.Ops = append(p.Ops, Op{Kind: "mstep", MKind: mstepKinds[pick(t, "mkind", 60, 25, 15)]})
+			case 2:
+				p.Ops = append(p.Ops, Op{Kind: "hold", Gate: rapid.SampledFrom(gateKinds).Draw(t, "gate")})
+			case 3:
+				p.Ops = append(p.Ops, Op{Kind: "prelease"})
+			}
+		}
+		sid := nextID
+		nextID++
+		wStore, wChild := 0, 0
+		if p.Cfg.Backing == "store" {
+			wStore = 20
+		}
+		if spec.Children {
+			wChild = 20
+		}
+		switch pick(t, "snapkind", 60, wStore, wChild) {
+		case 0:
+			p.Ops = append(p.Ops, Op{Kind: "snap", ID: sid})
+		case 1:
+			p.Ops = append(p.Ops, Op{Kind: "ssnap", ID: sid})
+		case 2:
+			p.Ops = append(p.Ops, Op{Kind: "snap", ID: sid, Path: []string{rapid.SampledFrom(childPool[:3]).Draw(t, "cs")}, N: rapid.IntRange(0, 1).Draw(t, "keepparent")})
+		}
+		nit := rapid.IntRange(1, 3).Draw(t, "niters")
+		for j := 0; j < nit; j++ {
+			iid := nextID
+			nextID++
+			o := Op{Kind: "iter", ID: iid, Snap: sid}
+			switch pick(t, "sb", 40, 50, 10) {
+			case 1:
+				o.HasS, o.Start = true, genProbeKey(t, g.keys, "start")
+			case 2:
+				o.HasS, o.Start = true, []byte{}
+			}
+			switch pick(t, "eb", 40, 50, 10) {
+			case 1:
+				o.HasE, o.End = true, genProbeKey(t, g.keys, "end")
+			case 2:
+				o.HasE, o.End = true, []byte{}
+			}
+			p.Ops = append(p.Ops, o)
+			nc := rapid.IntRange(1, 14).Draw(t, "ncalls")
+			for c := 0; c < nc; c++ {
+				switch pick(t, "call", 40, 45, 15) {
+				case 0:
+					p.Ops = append(p.Ops, Op{Kind: "iternext", ID: iid, N: rapid.IntRange(1, 3).Draw(t, "n")})
+				case 1:
+					p.Ops = append(p.Ops, Op{Kind: "iterseek", ID: iid, Key: genProbeKey(t, g.keys, "seek")})
+				case 2:
+					p.Ops = append(p.Ops, Op{Kind: "itercur", ID: iid})
+				}
+			}
+			if chance(t, "closeit", 70) {
+				p.Ops = append(p.Ops, Op{Kind: "closeiter", ID: iid})
+			}
+		}
+		if chance(t, "closesnap", 60) {
+			p.Ops = append(p.Ops, Op{Kind: "closesnap", ID: sid})
+		}
+	}
+	return p, g.excluded
+}
